@@ -1,12 +1,15 @@
 /-
   Driver.OpsC11 — protocol operations for property C11.
 
-  c11 <domEq> <U> strip… <U> incl… <U> excl… <ns> srcNames… <nr> refNames… <ns*nr> outcomes…
-      names are ids < U; strip/incl/excl are tables over the id universe (incl/excl are evaluated by the
-      model on *stripped* ids); outcome of comparing source field i with reference field j is entry
-      i*nr+j (0 pass, 1 fail, 2 raise); tags are positions.
-      → hyp=<distinct names on both sides> model=<verdict>;<suite entries in iteration order>;<callbacks>;<selector pairs>
+  c11 <domEq> <U> strip… <U> incl… <U> excl… <U> annot… <ns> srcNames… <nr> refNames… <ns*nr> outcomes…
+      names are ids < U; strip/incl/excl/annot are tables over the id universe (incl/excl are evaluated by
+      the model on *stripped* ids; annot = the name is a cell-field name carrying a cell-type annotation);
+      outcome of comparing source field i with reference field j is entry i*nr+j (0 pass, 1 fail, 2 raise);
+      tags are positions.
+      → hyp=<distinct names on both sides> cls=<1 iff some plain source name is changed by strip (class F14)>
+        model=<verdict>;<suite entries in iteration order>;<callbacks>;<selector pairs>
         spec=<verdict>;<report>            (spec printed only inside hyp; report `-` when the domains differ)
+        uspec=<verdict>;<report>           the same with the filters evaluated on user-level names
   fcs <status-name>  → model=<truthy>,<bucket>      finite table of FieldComparisonStatus / suite buckets
   findm <ns> src… <nr> ref…  → model=<pairs>;<orphansSrc>;<orphansRef>   (find_matches with `==` on ids, positions shown)
 -/
@@ -42,11 +45,12 @@ def opC11 : P String := do
   let strip ← pList pNat
   let incl ← pList pBool
   let excl ← pList pBool
+  let annot ← pList pBool
   let srcN ← pList pNat
   let refN ← pList pNat
   let outs ← pList pNat
   let U := strip.length
-  if incl.length ≠ U || excl.length ≠ U then failure
+  if incl.length ≠ U || excl.length ≠ U || annot.length ≠ U then failure
   if !(strip.all (· < U)) || !(srcN.all (· < U)) || !(refN.all (· < U)) then failure
   if outs.length ≠ srcN.length * refN.length || !(outs.all (· < 3)) then failure
   let nr := refN.length
@@ -63,7 +67,11 @@ def opC11 : P String := do
   let model := s!"{showBool r.suite.bool};{showCmps r.suite.iter};{showCmps r.callbacks};{showPairs r.selector}"
   let spec := if !hyp then "-" else
     s!"{showBool (Spec.verdict sel dom pred src ref)};{if dom then showCmps (Spec.report sel pred src ref) else "-"}"
-  pure s!"hyp={showBool hyp} model={model} spec={spec}"
+  let usel := Spec.userSelected (tableFn strip) (tableFn annot) (tableFn incl) (tableFn excl)
+  let uspec := if !hyp then "-" else
+    s!"{showBool (Spec.verdict usel dom pred src ref)};{if dom then showCmps (Spec.report usel pred src ref) else "-"}"
+  let cls := !(Spec.plainFixed (tableFn strip) (tableFn annot) src)
+  pure s!"hyp={showBool hyp} cls={showBool cls} model={model} spec={spec} uspec={uspec}"
 
 def opFcs : P String := do
   let t ← tok
